@@ -3364,7 +3364,9 @@ impl LineBuf {
 				let content = if should_drain {
 					// If we are deleting or changing, we need to drain the content
 					// and update the grapheme indices
-					let drained = self.drain(start,end);
+					// (cc, cj and the like empty the lines but keep the last one's line break)
+					let keep_newline = linewise && verb == &Verb::Change && end > start && self.grapheme_at(end - 1) == Some("\n");
+					let drained = self.drain(start,if keep_newline { end - 1 } else { end });
 					self.update_graphemes();
 					drained
 				} else {
@@ -4083,9 +4085,14 @@ impl LineBuf {
 				.clone()
 				.map(|m| self.eval_motion(verb_ref.as_ref(), m))
 				.unwrap_or({
+					// A linewise selection already ends after its last newline: nothing more is to be included
+					let linewise = matches!(self.select_mode, Some(SelectMode::Line(_)));
 					self.select_range
 						.clone()
-						.map(MotionKind::from_select_range)
+						.map(|range| match range {
+							SelectRange::OneDim((start,end)) if linewise => MotionKind::Exclusive((start,end)),
+							range => MotionKind::from_select_range(range)
+						})
 						.unwrap_or(MotionKind::Null)
 				})
 		};
